@@ -34,12 +34,12 @@ Definition spec_smartnic (nsid i1 i2 : N) : comp_spec :=
      [mkChildIf (S "nic2-p1") tDedicatedPort (Some i1); mkChildIf (S "nic2-p2") tDedicatedPort (Some i2)])).
 
 Definition w_component_dup_child : st * res N :=
-  op_add_component Substrate 1 (S "nic2") (Some 20) true true true (Ok (spec_smartnic 21 22 22)) None
+  op_add_component false Substrate 1 (S "nic2") (Some 20) true true true (Ok (spec_smartnic 21 22 22)) None
                    (mkSt g_two_nodes supply).
 
 Lemma add_component_atomic_refuted :
   exists fl pn name nid a b c cat pure g fresh s' e,
-    wf_graph g = true /\ op_add_component fl pn name nid a b c cat pure (mkSt g fresh) = (s', Err e) /\ sg s' <> g.
+    wf_graph g = true /\ op_add_component false fl pn name nid a b c cat pure (mkSt g fresh) = (s', Err e) /\ sg s' <> g.
 Proof.
   exists Substrate, 1, (S "nic2"), (Some 20), true, true, true, (Ok (spec_smartnic 21 22 22)), None,
          g_two_nodes, supply, (fst w_component_dup_child), EQuery.
